@@ -93,6 +93,8 @@ def ops_case(draw, tier='quick'):
             o['rows'] = _sel(draw, 6)
             o['cols'] = _sel(draw, 6)
             o['twice'] = draw(st.booleans())
+            # further selections on the same matrix object (exercises the one-entry submatrix cache)
+            o['more'] = [[_sel(draw, 6), _sel(draw, 6)] for _ in range(draw(st.integers(0, 4)))]
         if op == 'rowsupp':
             o['tol'] = draw(st.sampled_from([0, 0, 0.5, 1.0, 2.5]))
         ops.append(o)
@@ -237,6 +239,12 @@ def check_ops(case, rec):
                         cs, cmask = sel(o['cols'], nc)
                         R = A.submatrix(rs, cs)
                         r = a[numpy.ix_(rmask, cmask)]
+                        for mr, mc in o.get('more', []):
+                            rs2, rmask2 = sel(mr, nr)
+                            cs2, cmask2 = sel(mc, nc)
+                            check_matrix(A.submatrix(rs2, cs2), a[numpy.ix_(rmask2, cmask2)], where + ' (further selection on the same object)')
+                        if o.get('more'):
+                            check_matrix(A.submatrix(rs, cs), r, where + ' (first selection again)')
                         if o['twice']:
                             # exercise the one-entry cache: another selection, then the first again
                             A.submatrix(~rmask, cmask)
@@ -417,8 +425,8 @@ def check_invalid(case, rec):
 
 
 SUBS = [
-    Sub('ops', lambda tier: ops_case(tier), check_ops, {'quick': 250, 'thorough': 4000}, weight=3),
-    Sub('invalid', lambda tier: invalid_case(tier), check_invalid, {'quick': 400, 'thorough': 6000}, weight=1),
+    Sub('ops', lambda tier: ops_case(tier), check_ops, {'quick': 1500, 'thorough': 15000}, weight=3),
+    Sub('invalid', lambda tier: invalid_case(tier), check_invalid, {'quick': 1500, 'thorough': 15000}, weight=1),
 ]
 
 TRIGGERS = {}
